@@ -12,6 +12,8 @@ Numeric symbols:
   ('opaque', n)            unknown value
 A fact is a Lin meaning  lin >= 0.
 """
+import os
+
 from . import cfg as C
 from . import fmt
 from .dataflow import decl_of, def_sites
@@ -85,6 +87,7 @@ def is_unsigned(ct):
 
 class BoundsAnalysis:
     def __init__(self, prog, cg, min_param_cap=None):
+        self.check_reads = os.environ.get('VERIF_READS', '1') == '1'
         self.prog = prog
         self.cg = cg
         self.obligations = []
@@ -872,6 +875,9 @@ class _FuncAnalysis:
             return self.store(st, e, l)
         if k == 'CallExpr':
             return self.call(st, e)
+        if k == 'ImplicitCastExpr' and e.get('cast') == 'LValueToRValue' and self.top.check_reads:
+            self.read(st, e)
+            return st
         if k == 'ReturnStmt' and e.ch:
             if self.collect_returns is not None:
                 v = self.lin(e.ch[0], st)
@@ -889,6 +895,45 @@ class _FuncAnalysis:
                 self.collect_ptr_returns.append(idx)
             return st
         return st
+
+    def read(self, st, e):
+        """load through a subscript / dereference of a character object whose extent is known"""
+        l = e.ch[0]
+        while l is not None and l.k == 'ParenExpr':
+            l = l.ch[0]
+        if l is None:
+            return
+        if l.k == 'ArraySubscriptExpr':
+            base, idx = l.ch[0], l.ch[1]
+        elif l.k == 'UnaryOperator' and l.get('op') == '*':
+            base, idx = l.ch[0], None
+        else:
+            return
+        es = self.elem_size(base)
+        if es != 1:
+            return
+        reg = self.region_of(base, st)
+        if reg is None or (reg.cap is None and reg.end is None):
+            return
+        b = self.lin(base, st)
+        i = self.lin(idx, st) if idx is not None else Lin.const(0)
+        text = 'read %s' % render(l)[:50]
+        if b is None or i is None:
+            self.oblige('read', e, text, False, 'cannot express the index of %s' % render(l))
+            return
+        a = b + i
+        goals = []
+        if reg.end is not None:
+            goals.append((reg.end - a, 'up to the terminator of %s' % reg.name))
+        if reg.cap is not None:
+            goals.append((reg.base + reg.cap - a - Lin.const(1), 'capacity(%s) = %s' % (reg.name, reg.cap)))
+        low = self.entails(st, a - reg.base)
+        for g, why in goals:
+            if low and self.entails(st, g):
+                self.oblige('read', e, text, True, '', how='%s: offset %s in range' % (why, a - reg.base))
+                return
+        self.oblige('read', e, text, False, 'cannot prove offset %s of %s is within %s%s' % (
+            a - reg.base, render(base), goals[0][1], '' if low else ' (or non-negative)'))
 
     def store(self, st, e, l):
         """store through a subscript / dereference"""
@@ -1121,6 +1166,9 @@ class _FuncAnalysis:
                         ptr = sx.ch[0]
                     elif sx.k == 'ArraySubscriptExpr' and strip(sx.ch[1]).get('v') == 0:
                         ptr = sx.ch[0]
+                    if ptr is None and sx.k == 'ArraySubscriptExpr' and 'char' in (sx.get('ct') or ''):
+                        nz = ((c['op'] == '!=') == truth) if yv == 0 else ((c['op'] == '==') == truth)
+                        return self.char_at_fact(sx, nz, st)
                     if ptr is not None and 'char' in (sx.get('ct') or ''):
                         if yv == 0:
                             nonzero = (c['op'] == '!=') == truth
@@ -1157,11 +1205,26 @@ class _FuncAnalysis:
             return self.char_fact(c.ch[0], truth, st)
         if c.k == 'ArraySubscriptExpr' and strip(c.ch[1]).get('v') == 0 and 'char' in (c.get('ct') or ''):
             return self.char_fact(c.ch[0], truth, st)
+        if c.k == 'ArraySubscriptExpr' and 'char' in (c.get('ct') or ''):
+            return self.char_at_fact(c, truth, st)
         if c.k == 'DeclRefExpr' and is_int_type(c.get('ct')):
             a = self.lin(c, st)
             if a is not None and not truth:
                 return [a, -a]
         return None
+
+    def char_at_fact(self, sub, nonzero, st):
+        """base[i] != 0 with base + i inside the string  =>  base + i + 1 <= end(region)"""
+        if not nonzero:
+            return []
+        b, i = self.lin(sub.ch[0], st), self.lin(sub.ch[1], st)
+        reg = self.region_of(sub.ch[0], st)
+        if b is None or i is None or reg is None or reg.end is None:
+            return []
+        a = b + i
+        if self.entails(st, reg.end - a) and self.entails(st, a - reg.base):
+            return [reg.end - a - Lin.const(1)]
+        return []
 
     def char_fact(self, ptr, nonzero, st):
         """*ptr != 0  =>  strlen(ptr) >= 1 and ptr + 1 <= end(region)"""
